@@ -197,7 +197,7 @@ def model_unique(ops, syscond, h):
 
 
 def extract_schedules(rel):
-    """sysabs: -> {'rhombohedral': [perm...], 'trig-hex': [perm...]} each perm a 3-tuple of linear forms in hkl"""
+    """sysabs: -> ordered dispatch arms [(dump of test, test ast, [perm...])], each perm a 3-tuple of linear forms in hkl"""
     mod = core.module(rel)
     fn = mod.func("sysabs")
     body = core.body_wo_doc(fn)
@@ -242,31 +242,54 @@ def extract_schedules(rel):
     if len(body) != 3 or not isinstance(body[1], ast.If) or not isinstance(body[2], ast.Return) \
             or core.unparse(body[2].value) != res:
         raise AnalysisError("%s sysabs: expected dispatch statement and `return %s`" % (rel, res))
-    d = body[1]
-    out = {}
-    t1 = core.unparse(d.test).replace(" ", "").replace('"', "'")
-    if t1 != "cell_choice=='rhombohedral'":
-        raise AnalysisError("%s sysabs: first dispatch test is `%s`" % (rel, t1))
-    out["rhombohedral"] = chain(d.body)
-    if len(d.orelse) != 1 or not isinstance(d.orelse[0], ast.If) or d.orelse[0].orelse:
-        raise AnalysisError("%s sysabs: second dispatch arm missing" % rel)
-    t2 = core.unparse(d.orelse[0].test).replace(" ", "").replace('"', "'")
-    if t2 not in ("crystal_system=='trigonal'orcrystal_system=='hexagonal'", "crystal_system=='hexagonal'orcrystal_system=='trigonal'"):
-        raise AnalysisError("%s sysabs: second dispatch test is `%s`" % (rel, t2))
-    out["trig-hex"] = chain(d.orelse[0].body)
-    return out
+    arms = []
+    node = body[1]
+    while True:
+        check_dispatch_test(node.test, rel)
+        arms.append((ast.dump(node.test), node.test, chain(node.body)))
+        if len(node.orelse) == 1 and isinstance(node.orelse[0], ast.If):
+            node = node.orelse[0]
+            continue
+        if node.orelse:
+            raise AnalysisError("%s sysabs: dispatch has a final else arm" % rel)
+        break
+    return arms
+
+
+def check_dispatch_test(t, rel):
+    """dispatch tests are boolean combinations of `cell_choice|crystal_system ==|!= '<literal>'`"""
+    if isinstance(t, ast.BoolOp):
+        for v in t.values:
+            check_dispatch_test(v, rel)
+        return
+    if isinstance(t, ast.Compare) and len(t.ops) == 1 and isinstance(t.ops[0], (ast.Eq, ast.NotEq)) \
+            and isinstance(t.left, ast.Name) and t.left.id in ("cell_choice", "crystal_system") \
+            and isinstance(t.comparators[0], ast.Constant) and isinstance(t.comparators[0].value, str):
+        return
+    raise AnalysisError("%s sysabs: dispatch test `%s` is not a comparison of cell_choice/crystal_system with a literal"
+                        % (rel, core.unparse(t)))
+
+
+def eval_dispatch(t, crystal_system, cell_choice):
+    if isinstance(t, ast.BoolOp):
+        vals = [eval_dispatch(v, crystal_system, cell_choice) for v in t.values]
+        return all(vals) if isinstance(t.op, ast.And) else any(vals)
+    v = {"cell_choice": cell_choice, "crystal_system": crystal_system}[t.left.id]
+    r = v == t.comparators[0].value
+    return r if isinstance(t.ops[0], ast.Eq) else not r
+
+
+def schedule_for(arms, crystal_system, cell_choice):
+    for _d, t, perms in arms:
+        if eval_dispatch(t, crystal_system, cell_choice):
+            return perms
+    return []
 
 
 def model_absent(ops, schedules, syscond, crystal_system, cell_choice, h):
     if model_unique(ops, syscond, h):
         return True
-    if cell_choice == "rhombohedral":
-        sched = schedules["rhombohedral"]
-    elif crystal_system in ("trigonal", "hexagonal"):
-        sched = schedules["trig-hex"]
-    else:
-        sched = []
-    for p in sched:
+    for p in schedule_for(schedules, crystal_system, cell_choice):
         hp = tuple(dotf(f, h) for f in p)
         if model_unique(ops, syscond, hp):
             return True
